@@ -161,7 +161,11 @@ func judge(src string, recs []tgen.Record, fileName string, f *tgen.File, st ste
 		// received = D up to the first marker + the j bytes the component wrote
 		i := bytes.Index(d0, []byte("<i>comp</i>"))
 		j := min(st.job.CompFailAfter, len("<i>comp</i>"))
-		if want := d0[:i+j]; !bytes.Equal(r.Out, want) {
+		want := d0[:i+j]
+		// A capture() callee renders its block into a buffer of its own and hands nothing on when
+		// the block fails: then the writer has everything before that callee's <u>.
+		inCapture := strings.Contains(src, "@capture()") && bytes.HasPrefix(want, r.Out) && bytes.HasPrefix(d0[len(r.Out):], []byte("<u>"))
+		if !bytes.Equal(r.Out, want) && !inCapture {
 			return fmt.Errorf("nested component failed after %d bytes: writer received %q, want %q", j, clip(r.Out), clip(want))
 		}
 	}
